@@ -106,6 +106,20 @@ def check(rep, tier, seed):
                 d2 = list(map(str, data)); d2[0] = first; d2[-1] = last
                 cases.append((st, sh, d2)); expect.append((refv[(st, tuple(sh), tuple(data))], (st, sh, data)))
     compare("monomorphic-huge", cases, expect)
+    # ... and by values that are no numbers at all (a masked or unknown monomorphic cell: inf, NaN): the statistics that never
+    # read those cells cannot notice. Fst is left out: the binary computes it on the spectrum divided by its total, which
+    # is not a number then (f2/f3/f4 and sum read the cells anyway)
+    cases, expect = [], []
+    for st, sh, data in base:
+        if st in MONO_FREE and st != "fst":
+            for first, last in (("inf", None), (None, "inf"), ("nan", None), (None, "nan"), ("inf", "inf"), ("-inf", "nan")):
+                d2 = list(map(str, data))
+                if first is not None:
+                    d2[0] = first
+                if last is not None:
+                    d2[-1] = last
+                cases.append((st, sh, d2)); expect.append((refv[(st, tuple(sh), tuple(data))], (st, sh, data)))
+    compare("monomorphic-nonfinite", cases, expect)
     # swap populations
     cases, expect = [], []
     for st, sh, data in base:
